@@ -271,7 +271,13 @@ class Scenario:
     def op_schedule(self, tag):
         j, a, i = self._job(tag), self._att(tag), self._inst(tag)
         pres, _ = self._attempt_facts(j, a)
-        self._assume(b_and(self.selected_earlier(j), b_not(pres)))   # fresh random attempt id
+        # pool scheduler: a selected job with a fresh random attempt id; job-private instances: once the instance has
+        # activated, schedule_job is called for the Creating job with the attempt made by mark_job_creating
+        creating_same = False
+        for f in oracle.jobs(self.db):
+            creating_same = b_or(creating_same, b_and(oracle.i_eq(j, f.j), f.present, f.in_state('Creating'),
+                                                      b_not(f.attempt_id.n), oracle.i_eq(f.attempt_id.v, a)))
+        self._assume(b_or(b_and(self.selected_earlier(j), b_not(pres)), creating_same))
         # the scheduler only places jobs on instances it holds as active (schedule_job asserts it); the database row may
         # meanwhile have been deactivated, but it cannot be pending again
         st = self._inst_state(i)
@@ -453,6 +459,22 @@ class Scenario:
     def op_update2_group2(self, tag):
         return self._update2_groups([2], 'create_job_groups2b')
 
+    def _driver_main_fn(self, name, label):
+        from .. import loader
+        loader.install()
+        glue.pymysql_shim()
+        from batch.driver import main as dm
+
+        def make(app):
+            return getattr(dm, name)(app['db'])
+        return self.run_glue(label, make)
+
+    def op_cleanup_staging(self, tag):
+        return self._driver_main_fn('delete_committed_job_groups_inst_coll_staging_records', 'cleanup_staging')
+
+    def op_cleanup_cancellable(self, tag):
+        return self._driver_main_fn('delete_prev_cancelled_job_group_cancellable_resources_records', 'cleanup_cancellable')
+
     def op_dup_create_batch(self, tag):
         self.begin('create_batch_again')
         outs = self.w.create_batch('tokA', n_jobs=self.n1, n_job_groups=self.g1)
@@ -483,7 +505,8 @@ class Scenario:
         'unschedule': op_unschedule, 'deactivate': op_deactivate, 'activate': op_activate, 'cancel_group': op_cancel_group,
         'u2_create': op_update2_create, 'u2_jobs': op_update2_jobs, 'u2_commit': op_update2_commit, 'u2_groups': op_update2_groups, 'u2_group1': op_update2_group1, 'u2_group2': op_update2_group2, 'u3_create': op_update3_create, 'u3_jobs': op_update3_jobs,
         'u3_commit': op_update3_commit, 'dup_create_batch': op_dup_create_batch,
-        'dup_jobs1': op_dup_jobs1, 'commit1': op_commit1, 'cancel_ready': op_cancel_ready,
+        'dup_jobs1': op_dup_jobs1, 'commit1': op_commit1, 'cancel_ready': op_cancel_ready, 'cleanup_staging': op_cleanup_staging,
+        'cleanup_cancellable': op_cleanup_cancellable,
     }
 
     def apply(self, kind, idx):
